@@ -551,6 +551,7 @@ func iifeStep(c iifeCall, content []byte) ([]byte, string, error) {
 // inside the literal is then inlined like any other call of a new helper.
 
 type methodValueUse struct {
+	id   *ast.Ident // a plain function used as a value (sel is nil then)
 	sel  *ast.SelectorExpr
 	fn   *types.Func
 	file *ast.File
@@ -569,6 +570,28 @@ func newMethodValues(pkgs []*packages.Package, helpers map[*types.Func]declInfo,
 				return true
 			}
 			stack = append(stack, n)
+			if id, isId := n.(*ast.Ident); isId {
+				// a new plain function used as a value (handed to another function, stored): f -> func(p...) R { return f(p...) }
+				fn, _ := info.Uses[id].(*types.Func)
+				if fn == nil || fn.Type().(*types.Signature).Recv() != nil {
+					return true
+				}
+				if _, isNew := helpers[fn.Origin()]; !isNew || skip["mval:"+fn.FullName()] {
+					return true
+				}
+				if len(stack) >= 2 {
+					switch p := stack[len(stack)-2].(type) {
+					case *ast.CallExpr:
+						if ast.Unparen(p.Fun) == ast.Expr(id) {
+							return true
+						}
+					case *ast.SelectorExpr:
+						return true // pkg.f or x.f: handled as a selector
+					}
+				}
+				out = append(out, methodValueUse{id: id, fn: fn, file: d.file, pkg: d.pkg, encl: d.decl})
+				return true
+			}
 			sel, ok := n.(*ast.SelectorExpr)
 			if !ok {
 				return true
@@ -597,11 +620,142 @@ func newMethodValues(pkgs []*packages.Package, helpers map[*types.Func]declInfo,
 	return out
 }
 
+var methodValueCounter int
+
 func methodValueStep(u methodValueUse, content []byte) ([]byte, string, error) {
 	info := u.pkg.TypesInfo
+	if u.id != nil {
+		sig := u.fn.Type().(*types.Signature)
+		if sig.Variadic() || sig.TypeParams().Len() > 0 {
+			return nil, "", fmt.Errorf("variadic or generic function value")
+		}
+		var qerr error
+		qual := fileQualifier(u.pkg, u.file, &qerr)
+		var params, args, rs []string
+		for i := 0; i < sig.Params().Len(); i++ {
+			params = append(params, fmt.Sprintf("a%d__mv %s", i, types.TypeString(sig.Params().At(i).Type(), qual)))
+			args = append(args, fmt.Sprintf("a%d__mv", i))
+		}
+		for i := 0; i < sig.Results().Len(); i++ {
+			rs = append(rs, types.TypeString(sig.Results().At(i).Type(), qual))
+		}
+		if qerr != nil {
+			return nil, "", qerr
+		}
+		res, ret := "", ""
+		if len(rs) > 0 {
+			res, ret = " ("+strings.Join(rs, ", ")+")", "return "
+		}
+		tf := u.pkg.Fset.File(u.file.Pos())
+		lit := fmt.Sprintf("func(%s)%s { %s%s(%s) }", strings.Join(params, ", "), res, ret, u.id.Name, strings.Join(args, ", "))
+		out := applyTextEdits(content, []textEdit{{tf.Offset(u.id.Pos()), tf.Offset(u.id.End()), lit}})
+		return out, fmt.Sprintf("expanded the function value %s at %s into a function literal", u.id.Name, u.pkg.Fset.Position(u.id.Pos())), nil
+	}
 	id, ok := ast.Unparen(u.sel.X).(*ast.Ident)
 	if !ok {
-		return nil, "", fmt.Errorf("receiver of the method value is not a variable")
+		// a composite literal as the receiver (state{a, b}.run): the literal is evaluated once, when the method
+		// value is; it is bound to a fresh variable first, inside an immediately invoked literal that NORM's
+		// other steps then dissolve:  func() F { r := LIT; return func(p...) R { return r.m(p...) } }()
+		lit, isLit := ast.Unparen(u.sel.X).(*ast.CompositeLit)
+		if !isLit {
+			return nil, "", fmt.Errorf("receiver of the method value is not a variable")
+		}
+		pure := true
+		ast.Inspect(lit, func(n ast.Node) bool {
+			switch n.(type) {
+			case *ast.CallExpr, *ast.FuncLit, *ast.UnaryExpr:
+				if ue, isU := n.(*ast.UnaryExpr); isU && ue.Op == token.AND {
+					return true
+				}
+				pure = false
+			}
+			return pure
+		})
+		if !pure {
+			return nil, "", fmt.Errorf("receiver literal with calls")
+		}
+		sig := u.fn.Type().(*types.Signature)
+		if sig.Variadic() {
+			return nil, "", fmt.Errorf("variadic method")
+		}
+		var qerr error
+		qual := fileQualifier(u.pkg, u.file, &qerr)
+		var params, args, rs []string
+		for i := 0; i < sig.Params().Len(); i++ {
+			params = append(params, fmt.Sprintf("a%d__mv %s", i, types.TypeString(sig.Params().At(i).Type(), qual)))
+			args = append(args, fmt.Sprintf("a%d__mv", i))
+		}
+		for i := 0; i < sig.Results().Len(); i++ {
+			rs = append(rs, types.TypeString(sig.Results().At(i).Type(), qual))
+		}
+		ftype := "func(" + strings.Join(params, ", ") + ")"
+		ret := ""
+		if len(rs) > 0 {
+			ftype += " (" + strings.Join(rs, ", ") + ")"
+			ret = "return "
+		}
+		if qerr != nil {
+			return nil, "", qerr
+		}
+		tf := u.pkg.Fset.File(u.file.Pos())
+		litSrc := string(content[tf.Offset(lit.Pos()):tf.Offset(lit.End())])
+		methodValueCounter++
+		rv := fmt.Sprintf("recv__mv%d", methodValueCounter)
+		// inside a larger expression (an argument of a call): the binding is placed before the statement when the
+		// statement stands in a block and evaluates no call before the literal (the literal itself only reads
+		// variables, so nothing can have changed them)
+		path := enclosingPath(u.file, u.sel)
+		var stmt ast.Stmt
+		si := -1
+		for i, nd := range path {
+			if st, ok := nd.(ast.Stmt); ok {
+				stmt, si = st, i
+				break
+			}
+		}
+		if stmt != nil && si+1 < len(path) {
+			inBlock := false
+			switch path[si+1].(type) {
+			case *ast.BlockStmt, *ast.CaseClause, *ast.CommClause:
+				inBlock = true
+			}
+			simple := false
+			switch stmt.(type) {
+			case *ast.ReturnStmt, *ast.AssignStmt, *ast.ExprStmt:
+				simple = true
+			}
+			callBefore := false
+			ast.Inspect(stmt, func(n ast.Node) bool {
+				if n == nil {
+					return true
+				}
+				if n.Pos() >= u.sel.Pos() {
+					return false
+				}
+				if c, ok := n.(*ast.CallExpr); ok && c.End() <= u.sel.Pos() {
+					callBefore = true
+				}
+				if _, ok := n.(*ast.FuncLit); ok {
+					return false
+				}
+				return true
+			})
+			direct := false
+			if rs, ok := stmt.(*ast.ReturnStmt); ok && len(rs.Results) == 1 && ast.Unparen(rs.Results[0]) == ast.Expr(u.sel) {
+				direct = true // the IIFE form is inlined well there
+			}
+			if inBlock && simple && !callBefore && !direct {
+				lit2 := fmt.Sprintf("%s { %s%s.%s(%s) }", ftype, ret, rv, u.sel.Sel.Name, strings.Join(args, ", "))
+				out := applyTextEdits(content, []textEdit{
+					{tf.Offset(u.sel.Pos()), tf.Offset(u.sel.End()), lit2},
+					{tf.Offset(stmt.Pos()), tf.Offset(stmt.Pos()), rv + " := " + litSrc + "\n"},
+				})
+				return out, fmt.Sprintf("bound the literal receiver of the method value .%s at %s to a variable declared before the statement", u.sel.Sel.Name, u.pkg.Fset.Position(u.sel.Pos())), nil
+			}
+		}
+		text := fmt.Sprintf("func() %s { %s := %s; return %s { %s%s.%s(%s) } }()", ftype, rv, litSrc, ftype, ret, rv, u.sel.Sel.Name, strings.Join(args, ", "))
+		out := applyTextEdits(content, []textEdit{{tf.Offset(u.sel.Pos()), tf.Offset(u.sel.End()), text}})
+		return out, fmt.Sprintf("bound the literal receiver of the method value .%s at %s to a variable", u.sel.Sel.Name, u.pkg.Fset.Position(u.sel.Pos())), nil
 	}
 	if !neverReassigned(info, u.encl, info.Uses[id]) {
 		return nil, "", fmt.Errorf("receiver %s may change", id.Name)
